@@ -98,9 +98,25 @@ UNITS += [
 """),
 ]
 
+UNITS += [
+    # plain listing: the same decision without the size
+    Unit(name="local_list_entry_id", file=LB, kind="block", within="fn list(&self, tpe: FileType) -> RusticResult<Vec<Id>>",
+         anchor="@closure:.filter_map(|r|",
+         block_sig="fn local_list_entry_id(r: Result<DirEntryL, WalkErr>, tpe: FileType) -> (res: Option<Id>)",
+         block_tail="",
+         functions=["<rustic_backend::local::LocalBackend as ReadBackend>::list (per-entry closure of the directory walk)"],
+         rewrites=[Rw(r"r\s*\.inspect_err\(\|err\| error!\([^;]*?\)\)\s*\.ok\(\)\?", "vok_entry(r)?", regex=True, why="Result::inspect_err(log).ok() -> proved helper"),
+                   Rw("entry.file_name().to_string_lossy()", "entry.vfile_name()", why="OsStr -> str conversion of the entry's name -> stub"),
+         ],
+         contract="""
+    ensures
+        /*@exactly_the_regular_files_named_by_an_id_are_listed*/ res == (match r { Ok(e) => if e.is_file { NAME_ID(e.name) } else { None::<Id> }, Err(_) => None::<Id> }),
+"""),
+]
+
 KANI = []
 META = {"not_covered": [
-    "listings: the directory walk itself (walkdir: every file of the type's directory is yielded once), LocalBackend::list, the Config special case and the name parser Id::from_str (which names are ids: uninterpreted) are NOT decided; the per-entry closure of list_with_size IS a unit (regular files named by an id, with their true size; the nested helper `length` elided)",
+    "listings: the directory walk itself (walkdir: every file of the type's directory is yielded once), the Config special case of both listings and the name parser Id::from_str (which names are ids: uninterpreted) are NOT decided; the per-entry closures of list and list_with_size ARE units (regular files named by an id, with their true size; the nested helper `length` elided)",
     "the path building itself (base_path / filename / path: PathBuf joins, hex strings): stubs naming the file of a (type, id); Config files ignore the id",
     "the nested helper write_local_file (create/truncate/set_len/copy/sync_all) is elided: assumed to write the whole content or fail leaving anything under THAT name; fs::rename assumed atomic (POSIX); crash behaviour of the file system itself",
     "the generic object-store adapter (opendal.rs), rclone and rest backends; the in-memory test backend",
